@@ -42,10 +42,12 @@
 (* which C11 claims nothing) or asks for it (pw), all pairs are checked.   *)
 (* Order (C11) is demanded of adjacent pairs, of all pairs if pw.          *)
 (*                                                                         *)
-(* Every event is judged and a rejected one is printed (line, batch id,    *)
-(* stratum, <<item, item or 0, clause>>) and counted; accepted iff         *)
-(* all lines were consumed and nothing was rejected.  Stateless apart from *)
-(* the line counter: events do not depend on each other.                   *)
+(* Every event is judged; a rejected one is printed (line, batch id,       *)
+(* stratum, number rejected, <<item, other item or 0, clause>>) and        *)
+(* counted instead of blocking the behaviour, so that one run names every  *)
+(* rejected event.  The trace is accepted iff all lines were consumed and  *)
+(* nothing was rejected.  Stateless apart from the line counter: events do *)
+(* not depend on each other.                                               *)
 (***************************************************************************)
 EXTENDS KeyCodec, Json, IOUtils
 
